@@ -389,12 +389,15 @@ pub struct IsoMon {
     owed_errors: BTreeMap<SocketAddr, u64>,
     got_errors: BTreeMap<SocketAddr, u64>,
     active_peer: BTreeMap<SocketAddr, usize>,
+    /// workers alive per client address (a client whose workers have all ended owns no transfer any more)
+    live_workers: BTreeMap<SocketAddr, i64>,
+    had_worker: BTreeSet<SocketAddr>,
     pub probes: BTreeMap<&'static str, u64>,
 }
 
 impl IsoMon {
     pub fn new(clients: Vec<ClientSpec>, intruders: Vec<(usize, SocketAddr)>, listen: SocketAddr, single_port: bool) -> IsoMon {
-        IsoMon { attr: Attr::default(), clients, intruders, listen, single_port, live_src: BTreeMap::new(), owed_errors: BTreeMap::new(), got_errors: BTreeMap::new(), active_peer: BTreeMap::new(), probes: BTreeMap::new() }
+        IsoMon { attr: Attr::default(), clients, intruders, listen, single_port, live_src: BTreeMap::new(), owed_errors: BTreeMap::new(), got_errors: BTreeMap::new(), active_peer: BTreeMap::new(), live_workers: BTreeMap::new(), had_worker: BTreeSet::new(), probes: BTreeMap::new() }
     }
     fn v(&self, rule: &str, detail: String) -> Violation {
         Violation::new("C12", &format!("C12.{rule}"), detail).sig("mode", if self.single_port { "single-port" } else { "multi-port" })
@@ -421,6 +424,10 @@ impl Monitor for IsoMon {
                         return Some(self.v("shared_transfer_port", format!("transfer port {src} serves both {other} and {dst}")));
                     }
                     self.live_src.insert(*dst, *src);
+                }
+                // an ERROR to a client endpoint whose transfer is over (answer to a late packet)
+                if matches!(pkt, Some(Pkt::Error { .. })) && self.clients.iter().any(|c| c.client == *dst) && is_listener {
+                    *self.got_errors.entry(*dst).or_insert(0) += 1;
                 }
                 // is the datagram explained by the receiver's own activity?
                 if let Some((_, ia)) = self.intruders.iter().find(|(_, a)| a == dst) {
@@ -451,10 +458,26 @@ impl Monitor for IsoMon {
             }
             Ev::Deliver { dst, src, data, to_peer: None, .. } if *dst == self.listen => {
                 // a well-formed non-request from an endpoint that owns no transfer is owed an ERROR
+                let well_formed = matches!(rfc::decode(data), Some(Pkt::Data { .. }) | Some(Pkt::Ack(_)) | Some(Pkt::Error { code: 0..=7, .. }) | Some(Pkt::Oack(_))) && repo_decodable(data);
                 if let Some((_, ia)) = self.intruders.iter().find(|(_, a)| a == src) {
-                    if matches!(rfc::decode(data), Some(Pkt::Data { .. }) | Some(Pkt::Ack(_)) | Some(Pkt::Error { code: 0..=7, .. }) | Some(Pkt::Oack(_))) && repo_decodable(data) {
+                    if well_formed {
                         *self.owed_errors.entry(*ia).or_insert(0) += 1;
                     }
+                } else if self.single_port && well_formed && self.had_worker.contains(src) && self.live_workers.get(src).copied().unwrap_or(0) <= 0 {
+                    // a late duplicate from a client whose transfer has ended: it owns no transfer any more
+                    *self.owed_errors.entry(*src).or_insert(0) += 1;
+                    bump(&mut self.probes, "late_packet_after_transfer_end");
+                }
+            }
+            Ev::Spawn { task, .. } => {
+                if let Some(x) = self.attr.client_of(*task) {
+                    *self.live_workers.entry(x).or_insert(0) += 1;
+                    self.had_worker.insert(x);
+                }
+            }
+            Ev::End { task, .. } => {
+                if let Some(x) = self.attr.client_of(*task) {
+                    *self.live_workers.entry(x).or_insert(0) -= 1;
                 }
             }
             Ev::Close { addr, .. } => {
@@ -486,6 +509,13 @@ impl Monitor for IsoMon {
                 }
             }
             bump(&mut self.probes, "client_got_own_file");
+        }
+        for c in &self.clients {
+            let owed = self.owed_errors.get(&c.client).copied().unwrap_or(0);
+            let got = self.got_errors.get(&c.client).copied().unwrap_or(0);
+            if got < owed {
+                return Some(self.v("non_request_not_answered", format!("{} sent {owed} late packet(s) to the listening port after its transfer had ended but received only {got} ERROR replies", c.client)).sig("who", "former client"));
+            }
         }
         for (p, ia) in &self.intruders {
             let owed = self.owed_errors.get(ia).copied().unwrap_or(0);
